@@ -145,7 +145,10 @@ CLAIMED = {
               "and temperatures, the heat leaving the duct computed on the duct mesh with the h-weighted mapped gap "
               "temperature equals the heat credited on the gap mesh (interface identity, built on C10's overlap theorems).  "
               "Real cores (holes, periphery, mixed ring counts, unrodded regions, low-fidelity assemblies) are driven plane "
-              "by plane and the per-step core balance and the gap-side balance are checked; adiabatic cores exchange nothing."),
+              "by plane and the per-step core balance and the gap-side balance are checked; adiabatic cores exchange nothing "
+              "(bypass coolant included); per assembly the heat leaving the duct equals the heat the gap mesh receives from "
+              "it (1e-5); the gap conduction resistances of every built core are symmetric; steps on which an assembly "
+              "changes region and same-ring / different-pitch neighbours are included."),
         note=COMMON_NOTE + ("T1b symbolic execution of Core._flow_model/_update_energy_balance/_make_conv_mask on real cores; "
                             "hand list-level interface theorem tied to the code through C10's correspondence.  Larger cores, "
                             "region changes and six-node regions are covered by the oracle only."),
@@ -190,11 +193,15 @@ CLAIMED = {
               "equalises the pressure gradients t_i x_i^2 of the three subchannel types; over the reals with Real.rpow, the "
               "ratio constant the code uses equalises the friction pressure gradient Cf_i x_i^(2-m) De_i^-(1+m) of two "
               "types for every exponent m < 2.  All 120 accepted correlation combinations are evaluated on real bundles "
-              "at seven Reynolds numbers (10 .. 1e6): evaluability, positivity/finiteness, mass conservation."),
+              "at seven Reynolds numbers (10 .. 1e6): evaluability, positivity/finiteness, mass conservation, and the equalised "
+              "pressure-gradient relation of the transition split (the friction law of the SAME correlation family must be "
+              "used).  The Lean iteration model (Model/FlowSplit.lean, iterStep) is run by the native driver on the inputs of "
+              "real _iterate calls and must reproduce the fixed point the code returns."),
         note=COMMON_NOTE + ("T1 trace of _calc_constant_flowsplits; the iteration update is a hand model of the last lines "
                             "of _iterate validated by the oracle.  NOV/MIT/SE2 splits and the friction/mixing correlations "
-                            "are covered by the oracle only.  Seven genuine defects (combinations that cannot be evaluated, "
-                            "NaN friction factor) are recorded in known_findings.json by call site."),
+                            "are covered by the oracle only.  Nine genuine defects (combinations that cannot be evaluated, NaN "
+                            "friction factor, the approximate transition split not equalising the gradients, UCTD split with "
+                            "CTD friction) are recorded in known_findings.json by call site."),
         technique="Lean 4 proof (field_simp; Real.rpow algebra) over traced split + hand update model + exhaustive combination oracle",
         design="5/C12"),
     "C13": dict(
@@ -280,7 +287,9 @@ CLAIMED = {
               "step models need.  PARTIAL: the model is tied to the real reader by differential classification on valid "
               "generated inputs and single-fault perturbations (21 fault classes across the input keys); independently every "
               "invalid class must end in SystemExit before any temperature is computed and every valid generated input must "
-              "be set up and swept (60 planes) without exception or hang."),
+              "be set up and swept (60 planes) without exception or hang; a single-key perturbation sweep (every numeric "
+              "leaf of the input incl. FuelModel / PinModel / SpacerGrid, four extreme values each) must end in a clean "
+              "error exit or a finite result - never a traceback or a hang."),
         note=COMMON_NOTE + ("hand model + differential classification; ConfigObj parsing and schema validation are exercised, "
                             "not modelled; which inputs count as impossible (the fault classes) is a hand-written "
                             "specification in harness/checks/c18.py."),
@@ -293,8 +302,11 @@ CLAIMED = {
               "cumulative rises; with direct factors >= 1 and non-negative rises the result is never below nominal; it is "
               "monotone in the output confidence level; the excess over the direct value times the input confidence level "
               "is independent of that level; with statistical factors >= 1 each entry of coolant/clad/fuel adds a "
-              "non-negative rise to the previous one.  The real function is exercised on random tables of other shapes, on "
-              "all built-in tables through the reading/splitting/expression pipeline."),
+              "non-negative rise to the previous one.  A second model (Model/HotspotSort.lean, Props/C19Sort.lean): sorting the "
+              "(assembly id, row) pairs by id keeps every pair intact, yields ascending ids and every id finds its OWN row - "
+              "tied to hotspot.analyze by correspondence (native driver) and to independently recorded peaks.  The real "
+              "function is exercised on random tables of other shapes, on all built-in tables through the "
+              "reading/splitting/expression pipeline."),
         note=COMMON_NOTE + ("T1 trace at one small shape; larger shapes and the CSV pipeline are covered by the oracle.  "
                             "The clause that the rises are those of the pin and height of the nominal peak rests on C15."),
         technique="Lean 4 proof (linarith/nlinarith over traced formula, abstract sqrt) + oracle on the real function",
@@ -307,7 +319,10 @@ CLAIMED = {
               "flow exactly for any group factors and limit; every group but the last respects the pressure-drop flow "
               "limit, and the last one provably need not (counter-example).  The model reproduces the real _group "
               "(sizes and error/ok outcome) on generated lists incl. ties, and the property clauses are evaluated on the "
-              "real _group and distribute."),
+              "real _group and distribute.  clampGroup (Model/Orifice.lean): a clamped group gets the MINIMUM limit of its "
+              "members so every member respects its own limit (theorem), while clamping to the first member's limit provably "
+              "does not (counter-example); tied to Orificing.distribute by a fixed-point correspondence on faithful "
+              "parametric tables with mixed assembly types."),
         note=COMMON_NOTE + ("T3 hand model + differential correspondence on Orificing instances made with __new__.  "
                             "Partial: the pressure-drop clause for the last group does not hold in the model (and is "
                             "reported as an assumption, not as a violation, because distribute() itself stops with an "
